@@ -26,6 +26,21 @@ CHECKS = {
             "Generated histories of commits (incl. bulk insert/delete forcing splits, merges, root changes), pipeline steps and iterator calls; every iterator answer is compared with the model at the time of the call; the on-disk tree is re-parsed by an independent reader (sorted, uniform depth, values resolve).",
             "seek_to_first is seek(\"\"); the raw layout reader is an independent re-implementation of the documented file formats.",
             "DESIGN.md 4 C04", "pdbv"),
+    "C06": ("exploration",
+            "enumerated size-tier boundaries (255 tiers x 4 entry layouts x 3 lengths) + generated overwrite chains and steady-state rounds; round-trip oracle (get/get_size/iterator bit-exact) and slot accounting by an independent layout reader",
+            "The tier-boundary space is enumerated completely (compression none in quick, all three in thorough); overwrite chains across tiers / single-multipart / compressibility classes are generated; storage release is decided by re-parsing the files (every slot in exactly one live chain or on the free list; fill marks do not grow over steady-state rounds).",
+            "rc-header boundary lengths come from a key->length function because the preimage contract fixes value = f(key).",
+            "DESIGN.md 4 C06", "pdbv"),
+    "C07": ("exploration",
+            "model-based stateful PBT with a count model (Set +1, Reference/Dereference only on present keys) over hash-rc and btree-rc columns; presence oracle conditioned on the queue being empty; value-iteration multiset and raw stored counts compared after drain",
+            "Generated Set/Reference/Dereference histories with counts crossing zero while commits are queued; after every op the conditional presence oracle; after drain the (value,count) multiset from value iteration and the counts stored on disk (hash and btree) must equal the model. thorough adds crash stop points with counts in the observation.",
+            "While commits are queued a count-0 key may still be readable (the property allows it).",
+            "DESIGN.md 4 C07", "pdbv"),
+    "C14": ("exploration",
+            "generated mixed-column histories (+ crash stop points + steady-state rounds) followed by an independent re-parse of every file: index->slot->key/value/count resolution, slot accounting, free-list walk, btree walk, multitree forest and node reference counts vs the model",
+            "Invisible-to-get defects (leaks, orphans, double use, stale index entries, wrong node counts) become assertion failures of an independent reader of the documented formats, after drains, clean reopens and crash recoveries of generated histories over all column kinds.",
+            "Layout reader = independent re-implementation of the documented on-disk formats; one known finding (claimed multitree slots leaked by a crash) is tolerated by its exact shape and counted.",
+            "DESIGN.md 4 C14", "pdbv"),
 }
 
 NOT_YET = {
